@@ -224,6 +224,8 @@ func (r *bmRun) battery() {
 			r.search([]string{q}, k, nil, "")
 		}
 		r.search([]string{q}, -1, []int{1, 9}, "")
+		r.search([]string{q}, 2, []int{1, 9, 3}, "") // an id restriction is a set: order and repetition do not matter
+		r.search([]string{q}, -1, []int{2, 7, 7, 4, 2}, "")
 	}
 	for _, agg := range []string{"sum", "max", "mean"} {
 		r.search([]string{"aa", "bb aa"}, -1, nil, agg)
@@ -316,7 +318,7 @@ func drvBM25(args []string) error {
 				k := []int{-1, 0, 1, 2, 3, 10}[r.rng.Intn(6)]
 				var filt []int
 				if r.rng.Intn(3) == 0 {
-					filt = []int{1, 3, 9}
+					filt = [][]int{{1, 3, 9}, {9, 1, 3}, {2, 7, 7, 5}, {6, 2, 4}}[r.rng.Intn(4)]
 				}
 				nq := 1
 				if r.rng.Intn(4) == 0 {
